@@ -78,8 +78,10 @@ def read (r : Raw) (d : Dpb) : Except String Vol := do
     let eof := extNum last * 16384 + (if rc = 0 then 0 else (min rc 128 - 1) * 128 + (if s1 = 0 then 128 else s1))
     let first := es.headD []
     let ro := first.getD 9 0 ≥ 128
+    -- CP/M 3 password entry of this file: user + 16, same name and type
+    let pw := ents.any (fun e => e.getD 0 0 = first.getD 0 0 + 16 ∧ (slice e 1 11).map (· % 128) == (slice first 1 11).map (· % 128))
     let sorted := cs.mergeSort (fun a b => a.1 ≤ b.1)
-    pure ({ path := pathOf first, ftype := 0, access := if ro then 1 else 0, locked := ro, eof := eof,
+    pure ({ path := pathOf first, ftype := 0, access := (if ro then 1 else 0) + (if pw then 2 else 0), locked := ro, eof := eof,
             chunks := sorted, owned := own, aux := es.length } : FileRec))
   let used := files.flatMap (·.owned) ++ dblks
   let freeU := (List.range total).filter (fun u => !used.contains u)
